@@ -328,4 +328,93 @@ theorem toFlat_refines (index : List Label) (c : PCol α) (h : c.Clean) (hch : c
   simp only [hne, Bool.false_eq_true, if_false, hall, not_true_eq_false, pure, Except.pure]
   rfl
 
+
+/-! ### `iter_field_lists` (what `reduce` iterates over) -/
+
+/-- in a chunk, the field's lists row by row (a null list reading as no elements) are the field's
+    lists in the element view; a missing row contributes an empty list -/
+theorem chunk_field_lists (s : PStruct α) (hw : s.WF = true) (hh : s.noHidden)
+    (f : String) (k : PField α) (hk : s.kid? f = some k) :
+    k.list.rows.map (fun r => r.getD []) = Spec.fieldLists s.rows f := by
+  have hmem : k ∈ s.kids := List.mem_of_find?_eq_some hk
+  have hrl : k.list.rows.length = s.len := PStruct.kid_rows_length hw hmem
+  unfold Spec.fieldLists PStruct.rows
+  apply List.ext_getElem?
+  intro i
+  simp only [List.getElem?_map, List.map_map]
+  by_cases hi : i < s.len
+  · rw [List.getElem?_eq_getElem (by omega : i < k.list.rows.length), List.getElem?_range hi]
+    simp only [Option.map_some, Option.some.injEq, Function.comp]
+    have hg : k.list.rows.getD i none = k.list.rows[i]'(by omega) := by
+      simp [List.getD_eq_getElem?_getD, List.getElem?_eq_getElem (by omega : i < k.list.rows.length)]
+    unfold PStruct.rowAt
+    cases hv : s.valid.getD i false with
+    | true =>
+      simp only [if_true]
+      rw [List.find?_map]
+      have : ((fun p : String × List α => p.1 == f) ∘ fun k : PField α => (k.name, (k.list.rows.getD i none).getD []))
+          = fun k : PField α => k.name == f := by funext x; rfl
+      unfold PStruct.kid? at hk
+      rw [this, hk]
+      simp [List.getElem?_eq_getElem (by omega : i < k.list.rows.length)]
+    | false =>
+      simp only [Bool.false_eq_true, if_false]
+      have h0 := hh i hi hv k hmem
+      rw [hg] at h0
+      unfold len0 at h0
+      exact List.eq_nil_of_length_eq_zero h0
+  · have e1 : k.list.rows[i]? = none := List.getElem?_eq_none (by omega)
+    have e2 : (List.range s.len)[i]? = none := List.getElem?_eq_none (by simpa using Nat.le_of_not_lt hi)
+    simp [e1, e2]
+
+theorem fieldLists_append (r₁ r₂ : List (Row α)) (f : String) :
+    Spec.fieldLists (r₁ ++ r₂) f = Spec.fieldLists r₁ f ++ Spec.fieldLists r₂ f := by
+  simp [Spec.fieldLists]
+
+/-- **`iter_field_lists(f)`** yields, row by row over all chunks, the list field `f` has in that
+    row of the element view (no elements for a missing row). -/
+theorem iterFieldLists_refines (c : PCol α) (h : c.Clean) (f : String) (hf : c.ty.any (·.1 == f) = true) :
+    ∃ ls, NArr.iterFieldLists c f = .ok ls ∧ ls.map (fun r => r.getD []) = Spec.fieldLists c.rows f ∧
+      ls.length = c.len := by
+  unfold NArr.iterFieldLists PCol.rows
+  have key : ∀ (chunks : List (PStruct α)), (∀ s ∈ chunks, s ∈ c.chunks) →
+      ∃ per, chunks.mapM (iterOfChunk f) = .ok per ∧
+        per.flatten.map (fun r => r.getD []) = Spec.fieldLists (chunks.flatMap PStruct.rows) f ∧
+        per.flatten.length = sumNat (chunks.map PStruct.len) := by
+    intro chunks
+    induction chunks with
+    | nil => intro _; exact ⟨[], rfl, rfl, rfl⟩
+    | cons s rest ih =>
+      intro hsub
+      have hs : s ∈ c.chunks := hsub s List.mem_cons_self
+      obtain ⟨per, hper, hflat, hlen⟩ := ih (fun s' hs' => hsub s' (List.mem_cons_of_mem _ hs'))
+      have ⟨hws, hty⟩ := PCol.chunk_facts c h.wf s hs
+      have hkid : ∃ k, s.kid? f = some k := by
+        unfold PStruct.kid?
+        have : s.kids.any (·.name == f) = true := by
+          have := hf
+          rw [← hty] at this
+          simpa [PStruct.ty, List.any_map, Function.comp] using this
+        rw [List.any_eq_true] at this
+        obtain ⟨k, hk, hn⟩ := this
+        cases hfind : s.kids.find? (·.name == f) with
+        | none =>
+          rw [List.find?_eq_none] at hfind
+          exact absurd hn (by simpa using hfind k hk)
+        | some k' => exact ⟨k', rfl⟩
+      obtain ⟨k, hk⟩ := hkid
+      have hmem : k ∈ s.kids := List.mem_of_find?_eq_some hk
+      refine ⟨k.list.rows :: per, ?_, ?_, ?_⟩
+      · rw [List.mapM_cons]
+        simp only [iterOfChunk, hk, bind, Except.bind, pure, Except.pure, hper]
+      · simp only [List.flatten_cons, List.map_append, List.flatMap_cons, fieldLists_append, hflat]
+        congr 1
+        exact chunk_field_lists s hws (h.noHidden s hs) f k hk
+      · simp only [List.flatten_cons, List.length_append, List.map_cons, sumNat_cons, hlen,
+          PStruct.kid_rows_length hws hmem]
+  obtain ⟨per, hper, hflat, hlen⟩ := key c.chunks (fun s hs => hs)
+  refine ⟨per.flatten, ?_, hflat, ?_⟩
+  · simp only [hper, bind, Except.bind, pure, Except.pure]
+  · rw [hlen]; rfl
+
 end NP
